@@ -594,7 +594,8 @@ class IASolverBaseClass:  # pylint: disable=R0902
             Power of each user. If not provided, a value of 1 will be used
             for each user.
         """
-        if isinstance(Ns, (int, np.integer)):
+        if np.ndim(Ns) == 0:
+            # A python int, a numpy integer scalar or a 0-dimensional array
             Ns = np.ones(self.K, dtype=int) * int(Ns)
         assert (not isinstance(Ns, int))
 
